@@ -362,6 +362,16 @@ func Run(tier string) int {
 	}, func(i int, text string) {
 		rep.Report(mc.Violation{Symptom: "panic", Key: fmt.Sprint(lists[i]), Msg: text})
 	})
+	// id layouts: every way of spreading versions of a few stream ids over a stack of files
+	ilStart := time.Now()
+	ilDone, ilTotal, ilMerges := checkIDLayouts(rep, root, tier, queries, deadline.Add(45*time.Second))
+	merges += ilMerges
+	if ilDone < ilTotal {
+		timedOut = 1
+	}
+	rep.Coverage["id_layout_wall_s"] = time.Since(ilStart).Seconds()
+	rep.Coverage["id_layout_stacks"] = fmt.Sprintf("%d of %d", ilDone, ilTotal)
+	rep.Coverage["id_layout_rule"] = "every way of giving each of n stream ids a version in a non-empty subset of k stacked files (quick: 3 ids x 4 files and 4 ids x 3 files; thorough: 4 ids x 4 files, 3 ids x 5 files and 5 ids x 3 files; no file empty): id ranges of neighbouring files overlap, touch, nest or leave gaps in every combination; versions differ in payload, byte counts and first-packet second (a newer version can start earlier or later); every suffix of the stack is merged, before/after compared on all C01 observations of the newest versions and on six searches"
 	mhStart := time.Now()
 	mhDone, mhTotal, mhMerges := checkManyHosts(rep, root, tier, queries, deadline.Add(60*time.Second))
 	merges += mhMerges
@@ -369,7 +379,7 @@ func Run(tier string) int {
 		timedOut = 1
 	}
 	rep.Coverage["many_hosts_wall_s"] = time.Since(mhStart).Seconds()
-	rep.Coverage["main_family_wall_s"] = mhStart.Sub(deadline.Add(-budget)).Seconds()
+	rep.Coverage["main_family_wall_s"] = ilStart.Sub(deadline.Add(-budget)).Seconds()
 	rep.Coverage["many_hosts_merges"] = fmt.Sprintf("%d of %d", mhDone, mhTotal)
 	rep.Coverage["many_hosts_rule"] = "two files with thousands of distinct hosts each (IPv6 / IPv4, part of them shared and met in another order, together more than one host group holds), merged in both stacking orders; every stream compared before and after on all C01 observations, plus eight host-centred searches"
 	lcDone, lcTotal := checkLongConversations(rep, root, tier, deadline.Add(90*time.Second))
@@ -425,6 +435,156 @@ func compareSearches(before, after []string, queries []parsedQuery, report func(
 			report("search.differs", fmt.Sprintf("query %q: before merge %s, after merge %s", queries[qi].text, before[qi], after[qi]))
 		}
 	}
+}
+
+// ---- id layouts ----
+//
+// The main family draws its lists from eight hand-made files.  Here the id structure of the stack is
+// enumerated instead: n ids, k files, every id has a version in every file of a non-empty subset.
+
+func checkIDLayouts(rep *mc.Reporter, root, tier string, allQueries []parsedQuery, deadline time.Time) (done, total int, merges int64) {
+	type dims struct{ ids, files int }
+	ds := []dims{{3, 4}, {4, 3}}
+	if tier == "thorough" {
+		ds = []dims{{4, 4}, {3, 5}, {5, 3}}
+	}
+	var queries []parsedQuery
+	for _, q := range allQueries {
+		switch q.text {
+		case "", "sort:id", "id:1:3", "-id:1", "sort:-ftime limit:3", "sort:cbytes,-id":
+			queries = append(queries, q)
+		}
+	}
+	A, B := ip4(10, 0, 0, 1), ip4(10, 0, 0, 2)
+	type stackCase struct {
+		d    dims
+		mask []int // per id: set of files holding a version
+	}
+	var cases []stackCase
+	for _, d := range ds {
+		cur := make([]int, d.ids)
+		var gen func(i int)
+		gen = func(i int) {
+			if i == d.ids {
+				used := 0
+				for _, m := range cur {
+					used |= m
+				}
+				if used != 1<<d.files-1 {
+					return // a file without streams does not exist
+				}
+				cases = append(cases, stackCase{d, append([]int{}, cur...)})
+				return
+			}
+			for m := 1; m < 1<<d.files; m++ {
+				cur[i] = m
+				gen(i + 1)
+			}
+		}
+		gen(0)
+	}
+	total = len(cases)
+	var doneN, mergesN int64
+	var stop int32
+	mc.ParFor(len(cases), func(ci int) {
+		if atomic.LoadInt32(&stop) != 0 {
+			return
+		}
+		if time.Now().After(deadline) {
+			atomic.StoreInt32(&stop, 1)
+			return
+		}
+		c := cases[ci]
+		files := make([]fileSet, c.d.files)
+		var desc []string
+		for f := 0; f < c.d.files; f++ {
+			var ids []string
+			for id := 0; id < c.d.ids; id++ {
+				if c.mask[id]&(1<<f) == 0 {
+					continue
+				}
+				ids = append(ids, fmt.Sprint(id))
+				// a version is told apart by payload, byte counts and its first-packet second
+				start := base.Add(time.Duration(id)*time.Second + time.Duration((id+2*f)%3)*1250*time.Millisecond)
+				pl := fmt.Sprintf("id%d-file%d-%s", id, f, strings.Repeat("x", f))
+				files[f].streams = append(files[f].streams, &ref.StreamSpec{Name: fmt.Sprintf("s%d.f%d", id, f), ID: uint64(id), Client: A, Server: B,
+					CPort: uint16(1000 + id), SPort: 80, Start: start,
+					Pkts: []ref.PktSpec{{Dir: ref.DirC2S, OffsetUs: 0, File: "a.pcap", Index: uint64(id * 10), Data: []byte(pl)},
+						{Dir: ref.DirS2C, OffsetUs: int64(1000 * (f + 1)), File: "b.pcap", Index: uint64(id*10 + f), Data: []byte(strings.Repeat("r", f+1))}}})
+			}
+			files[f].name = "{" + strings.Join(ids, ",") + "}"
+			desc = append(desc, files[f].name)
+		}
+		lname := fmt.Sprintf("ids over files %s", strings.Join(desc, " < "))
+		visible := visibleSpecs(files)
+		dir := filepath.Join(root, fmt.Sprintf("il%d", ci))
+		os.MkdirAll(dir, 0o755)
+		defer os.RemoveAll(dir)
+		for from := 0; from < c.d.files-1; from++ {
+			step := fmt.Sprintf("[%s] merge suffix from %d", lname, from)
+			report := func(sym, msg string) {
+				rep.Report(mc.Violation{Symptom: sym, Key: step, Msg: step + ": " + msg, Replay: map[string]any{"id_layout": desc, "suffix": from}})
+			}
+			var readers []*index.Reader
+			ok := true
+			for fi, f := range files {
+				r := c01.CheckFile(filepath.Join(dir, fmt.Sprintf("in%d_%d.idx", fi, from)), f.streams, func(sym, msg string) {
+					ok = false
+					report("input."+sym, msg)
+				})
+				if r == nil {
+					ok = false
+					break
+				}
+				readers = append(readers, r)
+			}
+			closeAll := func() {
+				for _, r := range readers {
+					r.Close()
+				}
+			}
+			if !ok {
+				closeAll()
+				return
+			}
+			before := checkStack(readers, visible, queries, report)
+			var merged []*index.Reader
+			var err error
+			if pt := mc.Try(func() { merged, err = index.Merge(dir, readers[from:]) }); pt != "" {
+				report("merge.panic", pt)
+				closeAll()
+				continue
+			}
+			if err != nil || len(merged) == 0 {
+				report("merge.error", fmt.Sprintf("%v (%d output files)", err, len(merged)))
+				closeAll()
+				continue
+			}
+			atomic.AddInt64(&mergesN, 1)
+			seen := map[uint64]int{}
+			for _, m := range merged {
+				if err := m.AllStreams(func(st *index.Stream) error { seen[st.ID()]++; return nil }); err != nil {
+					report("merge.unreadable", err.Error())
+				}
+			}
+			for id, n := range seen {
+				if n > 1 {
+					report("merge.duplicate-id", fmt.Sprintf("id %d is stored %d times in the merge output", id, n))
+				}
+			}
+			for _, r := range readers[from:] {
+				r.Close()
+			}
+			readers = append(readers[:from:from], merged...)
+			after := checkStack(readers, visible, queries, report)
+			compareSearches(before, after, queries, report)
+			closeAll()
+		}
+		atomic.AddInt64(&doneN, 1)
+	}, func(i int, text string) {
+		rep.Report(mc.Violation{Symptom: "panic", Key: fmt.Sprintf("id layout %v", cases[i].mask), Msg: text})
+	})
+	return int(doneN), total, mergesN
 }
 
 // ---- merges that overflow a host group ----
